@@ -7,7 +7,7 @@ CONFIG = dict(
           "(C09_dll_name); the name table and the address table are the thunks before the first zero thunk, Null when the field is zero (C09_thunks, C09_tables_null); a thunk decodes, for 32- and 64-bit "
           "thunks, to the low 16 bits as ordinal when the top bit is set and otherwise to the u16 hint at rva = t mod 2^32 and the C string at rva+2, with the errors of the two reads propagated "
           "(C09_import_from_va), and every entry of a name table and of the IAT is decoded that way (C09_tables_decode); the IAT view has exactly Size / pointer-size entries at the directory RVA (C09_iat, C09_iat_length, C09_iat_null); no model function faults (C09_tables_no_fault, "
-          "C09_import_from_va_no_fault). F38 (new): rva + 2 overflowed on mapped views of 4 GiB or more - found by the check, fixed in the library, the code as it stood is refuted "
+          "C09_import_from_va_no_fault). WHICH bytes are decoded HOW, over the bytes at literal offsets and over slice itself, with no hypothesis on the image: a descriptor is the five dwords at offsets 0, 4, 8, 12, 16 of its 20-byte record (C09_desc_shape, C09_descs_shape); a thunk is the pointer-wide little-endian value at FirstThunk + i*va_bytes, every reported thunk is non-zero and the next one inside the slice is zero (C09_thunk_shape, C09_thunks_shape); thunk decoding with every outcome attributed to the step that produced it (C09_import_shape, C09_ordinal_flag_bit). F38 (new): rva + 2 overflowed on mapped views of 4 GiB or more - found by the check, fixed in the library, the code as it stood is refuted "
           "(C09_F38_import_from_va_orig_refuted) and shown unchanged elsewhere (C09_F38_orig_agrees). Tied to the library by the correspondence check on generated PE32 / PE32+ images, file and mapped.",
     note="Trusted: Coq kernel, extraction and glue; Spec/ImportSpec.v as the reading of the property (format constants written from the PE/COFF specification, slicing through the closed forms slice_spec / "
          "c_str_spec of C04/C05). The data directory is read from the header bytes by Model/Headers.v data_dir and proved equal to the spec's dir_spec for both formats. The Debug and serde "
